@@ -160,6 +160,23 @@ static void run_case(Case &c)
     API("opn2_switchEmulator", rc = opn2_switchEmulator(d, OPNMIDI_EMU_GENS));
     { ExactBuf b(default_bank()); API("opn2_openBankData", rc = opn2_openBankData(d, b.p, (long)b.n)); }
     Capture cap; cap.attach(d);
+    if(r.chance(0.35))
+    {   // the device has played (part of) another song before: nothing of its per-track play state may survive the load
+        Rng rp(r.next(), 11, 0);
+        SongOpts po; po.max_tracks = 8; po.max_events = 20; po.tempo_changes = true;
+        Song prev = gen_song(rp, po);
+        std::vector<uint8_t> pf = serialize_song(prev);
+        int rc0 = 0;
+        { ExactBuf in(pf); API("opn2_openData", rc0 = opn2_openData(d, in.p, (unsigned long)in.n)); }
+        if(rc0 == 0)
+        {
+            double plen = 0; API("opn2_totalTimeLength", plen = opn2_totalTimeLength(d));
+            double until = rp.chance(0.3) ? plen + 1.0 : rp.unit() * plen, acc = 0, dly = 0; long g0 = 0;
+            while(g0++ < 200000 && acc < until) { double nd = 0; API("opn2_tickEvents", nd = opn2_tickEvents(d, dly, 1e-6)); acc += dly; dly = std::min(nd, 5.0); int e0 = 0; API("opn2_atEnd", e0 = opn2_atEnd(d)); if(e0) break; }
+            count("loads_after_a_partly_played_song");
+        }
+        cap.clear();
+    }
     { ExactBuf in(file); API("opn2_openData", rc = opn2_openData(d, in.p, (unsigned long)in.n)); }
     if(rc != 0) { c.violation("oracle:C07:wellformed-file-rejected", vfmt("generated SMF (%zu bytes, format %d, %d tracks, division %d) rejected: %s", file.size(), song.format, nt, song.division, opn2_errorInfo(d))); opn2_close(d); return; }
     API("opn2_setTempo", opn2_setTempo(d, mult));
